@@ -59,7 +59,7 @@ register("C02", ["c02", "c04"],
          ["the C07 lemma", "certificates inside accepted messages were verified (C04 rules run with this property)"],
          TRUSTED)
 
-register("C17", ["c17"],
+register("C17", ["c17", "c17w"],
          "Static dominance, guard tables and who-may-call facts over the scope runtime (generic MIR): run/run_blocking read the recorded failure and return only after the joined root task and the completed wait for the `terminated` signal, with the cancel guard dropped first; each spawn method wraps user code in Task::run/run_blocking of a guard-holding task; the PanicReporter is armed before and defused after the user code, Err results and un-defused drops are reported through set_err; set_err's 6-row table (a panic is never overwritten, an error only by a panic, cancel iff stored) and the result mapping table are enumerated; the unsafe lifetime-erasing spawns have exact caller sets and are private. Schedule-dependent clauses (which failure is first, cancellation latency) and the tokio runtime are not decided.",
          ["tokio joins/aborts tasks as documented; Arc/Weak drop semantics", "scope::run! is the only caller of Scope::run (macro hygiene)"],
          TRUSTED)
@@ -89,7 +89,7 @@ register("C13", ["c13"],
          ["snow encrypts/decrypts and authenticates frames as specified (Noise NN, ChaChaPoly)", "AsyncRead/AsyncWrite contracts of the inner stream"],
          TRUSTED)
 
-register("C19", ["c19", "c08"],
+register("C19", ["c19", "c19w", "c08"],
          "Freedom from lost wake-ups and double hand-over under all interleavings is a concurrent-protocol property that needs a model checker and is NOT decided. Decided structural mechanisms: a request is taken for a peer only after the completed wait for that peer's announced state to contain the lowest pending number, and exactly that number is removed, atomically inside one watch closure, from the state pushed on that very connection; the acceptor returns only an entry it removed itself; the requester's retry table (done -> return, completion dropped -> re-insert, cancelled -> remove) is enumerated; completion is signalled only after the fetched block was queued (number-checked and verified, C08); the fetcher bounds each request by queued/persisted.",
          ["tokio watch/oneshot semantics", "the peer's push_block_store_state handler stores what the peer announced"],
          TRUSTED)
